@@ -274,6 +274,25 @@ PINNED_RULES = {
     "null": '@{ "null" ~ !identifier_rest }',
     "term": "_{ conditional | do_block | lambda | assignment | list | record | bool | string | null"
             " | input_reference | identifier | number | nested_expression }",
+    # the operator level, lean/Blots/Model/ExprPeg.lean (the alternatives of infix_op /
+    # natural_infix_op and the operator literals are generated: Gen.infixOrder,
+    # Gen.naturalOrder, Gen.grammarLit)
+    "WHITESPACE": '_{ " " | "\\t" }',
+    "plain_newline": '_{ "\\r\\n" | "\\n" }',
+    "NEWLINE": "_{ inline_comment? ~ plain_newline }",
+    "inline_comment": '_{ "//" ~ (!plain_newline ~ ANY)* }',
+    "infix_usage": "_{ (WHITESPACE | NEWLINE)+ ~ natural_infix_op ~ WHITESPACE+"
+                   " | (WHITESPACE | NEWLINE)* ~ infix_op ~ (WHITESPACE | NEWLINE)* }",
+    "prefix_op": "_{ negation | invert }",
+    "natural_prefix_op": "_{ natural_not }",
+    "prefix_usage": "_{ natural_prefix_op ~ WHITESPACE+ | prefix_op }",
+    "postfix_op": "_{ factorial | access | call_list | dot_access }",
+    "expression": "${ prefix_usage* ~ term ~ postfix_op* ~ (infix_usage ~ prefix_usage* ~ term ~ postfix_op*)* }",
+    "nested_expression": '_{ "(" ~ (WHITESPACE | NEWLINE)* ~ expression ~ (WHITESPACE | NEWLINE)* ~ ")" }',
+    "number": "@{ binary_number | hex_number | decimal_number }",
+    "decimal_number": '_{ (integer ~ ("_"+ ~ integer)* ~ ("." ~ ASCII_DIGIT+)? | !integer ~ "." ~ ASCII_DIGIT+) ~ (^"e" ~ integer)? }',
+    "integer": '_{ ("+" | "-")? ~ ASCII_DIGIT+ }',
+    "dot_access": '{ "." ~ identifier }',
 }
 # rules of which only the beginning matters to the model (`termStart`/`termWord` argue that
 # they cannot match a bare word because a space / "=" / sign must follow)
@@ -298,7 +317,7 @@ def check_pinned_rules(g):
     for name, want in PINNED_RULES.items():
         got = rule_text(g, name)
         if got != " ".join(want.split()):
-            raise Fail("grammar.pest: rule `%s` is now `%s`; lean/Blots/Model/Ident.lean models `%s`" % (name, got, want))
+            raise Fail("grammar.pest: rule `%s` is now `%s`; lean/Blots/Model/Ident.lean / ExprPeg.lean model `%s`" % (name, got, want))
     for name, want in PINNED_PREFIXES.items():
         got = rule_text(g, name)
         if not got.startswith(" ".join(want.split())):
